@@ -133,8 +133,19 @@ def _h(case):
     return hashlib.md5(json.dumps(case, sort_keys=True).encode()).digest()[0]
 
 
+DIRECT_ONLY = False      # set in the freshly forked processes of the order pass
+
+
+def direct_replayer(blocks):
+    global DIRECT_ONLY
+    DIRECT_ONLY = True
+    return replayer(blocks)
+
+
 def paths_for(case):
     p = ['direct']
+    if DIRECT_ONLY:
+        return p + (['wrapped'] if any(a['t'] != 'arr' for a in case['args']) else [])
     if any(a['t'] != 'arr' for a in case['args']):
         p.append('wrapped')
     p.append('formula')
@@ -384,6 +395,8 @@ def run(run):
             run.sample(s)
         for d in part['dis']:
             run.disagree('call', d['case'], d['exp'], d['obs'], d['features'], clause=d['path'], repro=repro_text(d))
+    # the same calls in four orders, each order in ONE fresh process (state left behind by earlier calls)
+    calls.replay_orders(run, blocks, direct_replayer, key=lambda b: len(b), sample=20000)
     if len(byf) != 7 or min(byf.values()) < 1000:
         raise xl.MachineryError(f'vacuous replay: {byf}')
     run.notes['cases_by_function'] = byf
